@@ -90,7 +90,7 @@ func constValue(c *ssa.Const) Value {
 // global returns the address of a package-level variable, initialising its
 // package on first touch.
 func (ex *Exec) global(g *ssa.Global) *Value {
-	if !initAllowed(g.Pkg.Pkg.Path(), ex.w.prog.targetPath) && !zeroGlobalOK[g.Pkg.Pkg.Path()+"."+g.Name()] {
+	if !initAllowed(g.Pkg.Pkg.Path(), ex.w.prog.targetPath) && !zeroGlobalOK[g.Pkg.Pkg.Path()+"."+g.Name()] && g.Pkg.Pkg.Path() != "internal/cpu" {
 		panic(unsupported("global of a package whose initialiser is not interpreted: " + g.Pkg.Pkg.Path() + "." + g.Name()))
 	}
 	if p, ok := ex.globals[g]; ok {
